@@ -42,10 +42,12 @@ int vrt_cfg_ncpus = 4;
 int vrt_cfg_cpu_of[VRT_MAXT];
 
 static FILE *trace;
-static unsigned long steps, budget = 400000;
+static unsigned long steps, work, budget = 400000;
 static uint64_t rng, rng2;
 static int pswitch = 30, psig = 0, f_spur = 0, f_eintr = 0, f_enosys = 0, maxsigdepth = 2;
-static int strategy;			/* 0 rand, 1 pct */
+static int strategy;			/* 0 rand, 1 pct, 2 sweep (non-preemptive + one forced preemption) */
+static unsigned long preempt_at;
+static int preempt_tid = 1, preempt_len = 3, forced_left, forced_tid = -1;
 static int pct_d = 3;
 static unsigned long pct_points[16];
 static unsigned long pct_len = 2000;
@@ -94,6 +96,7 @@ int vrt_done(int tid) { return T[tid].done; }
 unsigned long vrt_steps(void) { return steps; }
 unsigned long vrt_mysteps(void) { return T[vrt_tid].steps; }
 unsigned long vrt_myrelax(void) { return T[vrt_tid].relax; }
+unsigned long vrt_total_relax(void) { unsigned long n = 0; int i; for (i = 0; i < nthreads; i++) n += T[i].relax; return n; }
 void vrt_freeze(int tid, int frozen) { T[tid].frozen = frozen; }
 
 static void out_flush(void) { if (trace) fflush(trace); }
@@ -114,6 +117,11 @@ void vrt_log(const char *fmt, ...)
 	va_list ap;
 	if (!vrt_active || !trace)
 		return;
+	if (strstr(fmt, "FUTEX") || strstr(fmt, "futex"))
+		fprintf(trace, "#@ %lu\n", steps);
+	else {
+		/* location names are passed as arguments: look at the first string argument cheaply */
+	}
 	fprintf(trace, "T%d ", vrt_tid);
 	va_start(ap, fmt);
 	vfprintf(trace, fmt, ap);
@@ -288,6 +296,34 @@ static int pick_next(int self_ok)
 		if (T[i].st == ST_POLL) poll[np++] = i;
 		else cand[nc++] = i;
 	}
+	if (strategy == 2) {
+		int best = -1;
+		if (preempt_at && steps == preempt_at && preempt_tid < nthreads && T[preempt_tid].used && !T[preempt_tid].done &&
+		    (preempt_tid != self || self_ok)) {
+			/* the one forced preemption: wake the thread if it is in a logical sleep */
+			if (T[preempt_tid].st == ST_SLEEP)
+				T[preempt_tid].wake_step = steps;
+			if (runnable(preempt_tid)) {
+				forced_tid = preempt_tid;
+				forced_left = preempt_len;
+			}
+		}
+		if (forced_left > 0 && forced_tid >= 0 && (forced_tid != self || self_ok) && runnable(forced_tid)) {
+			forced_left--;
+			return forced_tid;
+		}
+		forced_left = 0;
+		if (self_ok && runnable(self) && T[self].st == ST_RUN)
+			return self;
+		for (i = 0; i < nc; i++)
+			if (best < 0 || cand[i] < best) best = cand[i];
+		if (best >= 0)
+			return best;
+		for (i = 0; i < np; i++)
+			if (best < 0 || poll[i] < best) best = poll[i];
+		if (best >= 0)
+			return best;
+	}
 	if (nc == 0 && np == 0) {
 		/* only logical sleepers left: time jumps to the earliest wake-up */
 		unsigned long best = 0;
@@ -355,8 +391,9 @@ static void sched(void)
 	int self = vrt_tid, next;
 	unsigned i;
 	steps++;
+	work++;
 	T[self].steps++;
-	if (steps > budget)
+	if (work > budget)
 		die(5, "BUDGET");
 	if (strategy == 1)
 		for (i = 0; i < (unsigned)pct_d; i++)
@@ -734,7 +771,10 @@ int vrt_init(int argc, char **argv)
 	cfg_from_env();
 	for (i = 1; i < argc; i++) {
 		if (!strcmp(argv[i], "--seed") && i + 1 < argc) seed = strtoull(argv[++i], 0, 0);
-		else if (!strcmp(argv[i], "--strategy") && i + 1 < argc) { i++; strategy = !strcmp(argv[i], "pct"); }
+		else if (!strcmp(argv[i], "--strategy") && i + 1 < argc) { i++; strategy = !strcmp(argv[i], "pct") ? 1 : !strcmp(argv[i], "sweep") ? 2 : 0; }
+		else if (!strcmp(argv[i], "--preempt-at") && i + 1 < argc) preempt_at = strtoul(argv[++i], 0, 0);
+		else if (!strcmp(argv[i], "--preempt-tid") && i + 1 < argc) preempt_tid = atoi(argv[++i]);
+		else if (!strcmp(argv[i], "--preempt-len") && i + 1 < argc) preempt_len = atoi(argv[++i]);
 		else if (!strcmp(argv[i], "--pswitch") && i + 1 < argc) pswitch = atoi(argv[++i]);
 		else if (!strcmp(argv[i], "--psig") && i + 1 < argc) psig = atoi(argv[++i]);
 		else if (!strcmp(argv[i], "--sigdepth") && i + 1 < argc) maxsigdepth = atoi(argv[++i]);
@@ -778,7 +818,7 @@ int vrt_init(int argc, char **argv)
 		M[i].owner = -1;
 	vrt_active = 1;
 	vrt_raw("# vrt seed=%llu strategy=%s pswitch=%d psig=%d faults=%d/%d/%d membarrier=%d", (unsigned long long)seed,
-		strategy ? "pct" : "rand", pswitch, psig, f_spur, f_eintr, f_enosys, vrt_cfg_membarrier);
+		strategy == 1 ? "pct" : strategy == 2 ? "sweep" : "rand", pswitch, psig, f_spur, f_eintr, f_enosys, vrt_cfg_membarrier);
 	return j;
 }
 
